@@ -960,7 +960,10 @@ theorem appendBatch_refines (es : List (LogId × Bytes)) :
           (by have := hg1.items; have := hg1.maxItems; omega)
           (by have := hg1.size; have := hg1.capacity; omega)
       refine ⟨seg2, s2, e1 ++ e2, ?_, href2, ?_⟩
-      · unfold Store.appendBatch
+      · have hidx : id.index + 1 ≠ U64 := by
+          have : id.index + 1 < U64 := hsm (id, p) List.mem_cons_self
+          omega
+        rw [appendBatch_cons_small_D12 _ _ _ _ _ _ _ hidx]
         rw [heq1]
         simp only
         rw [heq2, List.append_assoc]
@@ -1116,7 +1119,10 @@ theorem call_refines {s : Store} {r r' : RefLog} (fsHas : Nat → Bool) {op : Op
       exact truncateAfter_refines fsHas h hfs (Or.inr ⟨e, (RefLog.entryAt_some he).1, rfl⟩)
         (by rw [← hde]; exact hds)
   | purge upto =>
-    simp only [Store.call]
+    have hidx : upto.index + 1 ≠ U64 := by
+      have : upto.index + 1 < U64 := hsm
+      omega
+    simp only [Store.call, if_neg hidx]
     rw [nextIndexChecked_eq h.pf.purged]
     simp only [hpu]
     simp only [RefLog.call] at hc
